@@ -632,6 +632,17 @@ func (fc *funcContext) translateExpr(expr ast.Expr) *expression {
 			if _, ok := sel.Recv().Underlying().(*types.Interface); ok {
 				return fc.formatExpr(`$ifaceMethodExpr("%s")`, sel.Obj().(*types.Func).Name())
 			}
+			if ptr, isPtr := sel.Recv().(*types.Pointer); isPtr && len(sel.Index()) == 1 {
+				if _, ptrRecv := sel.Obj().Type().(*types.Signature).Recv().Type().(*types.Pointer); !ptrRecv {
+					// (*T).M for a value-receiver method M is T.M applied to the
+					// pointed-to value, which the method receives as a copy.
+					deref := "recv.$get()"
+					if _, isArray := ptr.Elem().Underlying().(*types.Array); isArray {
+						deref = "(recv.nilCheck, recv)" // a pointer to an array is represented by the array itself
+					}
+					return fc.formatExpr(`((recv, ...args) => $methodExpr(%s, "%s")(%s, ...args))`, fc.typeName(ptr.Elem()), sel.Obj().(*types.Func).Name(), deref)
+				}
+			}
 			return fc.formatExpr(`$methodExpr(%s, "%s")`, fc.typeName(sel.Recv()), sel.Obj().(*types.Func).Name())
 		default:
 			panic(fmt.Sprintf("unexpected sel.Kind(): %T", sel.Kind()))
